@@ -19,7 +19,8 @@ CONSTANTS Bases,     \* set of <<n, d>> base values for semi-axes
           Centres,   \* set of centres, each <<<<n,d>>,<<n,d>>,<<n,d>>>>
           Scales,    \* set of scale exponents sc
           CentresE, ScalesE,  \* the same for ellipsoids (three axes multiply the state space)
-          SeriesN    \* number of series terms for the ellipse perimeter
+          SeriesN,   \* number of series terms for the ellipse perimeter
+          Classes    \* the classes to visit (a subset of Circle, Ellipse, Sphere, Ellipsoid)
 
 VARIABLES cls, ax, ctr, sc
 vars == <<cls, ax, ctr, sc>>
@@ -50,7 +51,7 @@ AxMax(S) == CHOOSE a \in S : \A b \in S : ~AxLt(a, b)
 
 (* ---- state machine over parameters ------------------------------------------ *)
 NAx(c) == CASE c = "Circle" -> 1 [] c = "Sphere" -> 1 [] c = "Ellipse" -> 2 [] c = "Ellipsoid" -> 3
-Init == /\ cls \in {"Circle", "Ellipse", "Sphere", "Ellipsoid"}
+Init == /\ cls \in Classes
         /\ ax \in [1..NAx(cls) -> {Axis(b, e) : b \in Bases, e \in Eps}]
         /\ ctr \in (IF cls = "Ellipsoid" THEN CentresE ELSE Centres)
         /\ sc \in (IF cls = "Ellipsoid" THEN ScalesE ELSE Scales)
@@ -138,6 +139,17 @@ PerimHiA == Div(Pi(1, Mul(<<Qt(2, 1), Sum(<<Sq(AgA(0)), Neg(AgmS)>>)>>)), AgB(Ag
 Perimeter == IF cls = "Circle" THEN Pi(1, Mul(<<Qt(2, 1), A1>>))
              ELSE [encl |-> << [max |-> <<PerimLo, PerimLoA>>], [min |-> <<PerimHi, PerimHiA>>] >>]
 
+\* Form factor of a sphere of radius R at |q| R = x:  F = 4 pi R^3 (sin x - x cos x) / x^3 = 4 pi R^3 sum_k t_k,
+\* t_0 = 1/3, t_k / t_(k-1) = -x^2 / (2k (2k + 3)); an alternating series with decreasing terms for x <= 1, so twelve terms
+\* leave a remainder below 1e-25.  Emitted for small and moderate rational x, where closed forms in (pi/2) Z say nothing.
+XSmall == << <<1, 1000>>, <<1, 100>>, <<3, 100>>, <<49, 1000>>, <<1, 20>>, <<51, 1000>>, <<1, 5>>, <<1, 1>> >>
+RECURSIVE FFHorner(_, _)
+FFHorner(x, k) == LET r == Mul(<<Qt(-1, 2 * k * (2 * k + 3)), Sq(x)>>) IN
+                  IF k = 12 THEN Sum(<<Qt(1, 1), r>>) ELSE Sum(<<Qt(1, 1), Mul(<<r, FFHorner(x, k + 1)>>)>>)
+SphereFF == [i \in 1..Len(XSmall) |->
+               LET x == Qt(XSmall[i][1], XSmall[i][2]) IN
+               [x |-> x, amp |-> Pi(1, Mul(<<Qt(4, 3), Pow(A1, 3), FFHorner(x, 1)>>))]]
+
 Volume == IF cls = "Sphere" THEN Pi(1, Mul(<<Qt(4, 3), Pow(A1, 3)>>))
           ELSE Pi(1, Mul(<<Qt(4, 3), A1, A2, A3>>))
 SX == A1
@@ -212,6 +224,7 @@ Record ==
       isball |-> (cls \in {"Circle", "Sphere"}) \/ AllEqual \/ (cls = "Ellipse" /\ AxEq(ax[1], ax[2])),
       measure |-> IF Is2D THEN Area2D ELSE Volume,                 \* area / volume
       boundary |-> IF Is2D THEN Perimeter ELSE Surface,            \* perimeter / surface area
+      ffsmall |-> IF cls = "Sphere" THEN SphereFF ELSE <<>>,
       perim_series |-> IF cls = "Ellipse" THEN [encl |-> <<PerimLo, PerimHi>>] ELSE Qt(0, 1),
       perim_agm |-> IF cls = "Ellipse" THEN [encl |-> <<PerimLoA, PerimHiA>>] ELSE Qt(0, 1),
       ecc2 |-> IF Is2D THEN Ecc2 ELSE Qt(0, 1),
